@@ -30,7 +30,8 @@ RULE = ("histories of 1-60 generate(n)/skip(n) requests on one generator "
         "samples (a per-symbol simulator loop) starting at positions 1..1e10 and "
         "decides its tail against the model and the whole stretch against ONE "
         "request of a twin generator."
-        "Shape 1 (int) is a shape of its own; one case in seven makes requests of several million ray samples in the quick tier. ")
+        "Shape 1 (int) is a shape of its own; one case in seven makes requests of several million ray samples in the quick tier. "
+        "A fifth of the function cases supply only psi. ")
 ASSUMPTIONS = [
     "sample k is compared within sqrt(L) (2 pi Fd t_k eps 40 + 1e-12): any "
     "implementation that forms k*Ts in double meets it, a relative drift of "
@@ -292,9 +293,41 @@ def case_history(ctx, rng, idx):
     ctx.sample("history", {**tag, "history": hist[:12], "final_position": k})
 
 
+def partial_phases(ctx, rng, idx):
+    """generate_jakes_samples() with only ONE of the two phase sets supplied:
+    the supplied one is used as given (the other is drawn).  With psi given the
+    sample at time 0 is sum(exp(j psi)) / sqrt(L) whatever phi is drawn, and at
+    zero Doppler every sample has that value."""
+    shape = [None, (2,), (3, 2)][idx % 3]
+    st = shape_tuple(shape)
+    L = int(rng.integers(1, 12))
+    Ts = TS[int(rng.integers(0, len(TS)))]
+    psi = rng.random((L,) + st + (1,)) * 2 * np.pi
+    n = int(rng.integers(1, 40))
+    want0 = np.sum(np.exp(1j * psi), axis=0)[..., 0] / math.sqrt(L)
+    for Fd in (0.0, float(10.0 ** rng.uniform(-3, math.log10(0.3 / Ts)))):
+        tag = {"Fd": Fd, "Ts": Ts, "L": L, "shape": shape, "entry": "function:psi-only"}
+        okc, res = ctx.call("request-shape", FG.generate_jakes_samples, Fd, Ts, n, L, shape, 0.0,
+                            None, psi, cls="function-raised", detail=tag)
+        if not okc:
+            continue
+        h = np.asarray(res[1])
+        if h.shape != st + (n,):
+            ctx.ev("request-shape", False, cls="function:wrong-count-or-shape",
+                   detail={**tag, "got": h.shape})
+            continue
+        cols = h if Fd == 0.0 else h[..., :1]
+        err = float(np.max(np.abs(cols - want0[..., None])))
+        ctx.ev("sample-equals-model", err <= 64 * EPS * math.sqrt(L) * 4, n=cols.size,
+               cls="function:supplied-psi-not-used",
+               detail={**tag, "error": err, "got": cols.ravel()[:3], "want": want0.ravel()[:3]})
+
+
 def case_function(ctx, rng, idx):
     """The module-level entry point generate_jakes_samples(): a stretch is
     continued by passing the returned time and the same phases back in."""
+    if idx % 5 == 2:
+        partial_phases(ctx, rng, idx)
     shape = [None, (2,), (3, 2)][idx % 3]
     Ts = TS[(idx // 3) % len(TS)]
     Fd = [0.0, 5.0, 100.0, 0.3 / Ts, float(10.0 ** rng.uniform(-3, math.log10(0.3 / Ts)))][
